@@ -631,7 +631,11 @@ void bloom_filter_alloc<A>::internal_update(uint64_t h0, uint64_t h1) {
     const uint64_t hash_index = ((h0 + i * h1) >> 1) % num_bits;
     bit_array_ops::set_bit(bit_array_, hash_index);
   }
-  is_dirty_ = true;
+  if (!is_dirty_) {
+    is_dirty_ = true;
+    // the count stored in wrapped memory is stale from now on: mark it so that a later wrap or deserialize recounts
+    if (memory_ != nullptr) copy_to_mem(DIRTY_BITS_VALUE, memory_ + NUM_BITS_SET_OFFSET_BYTES);
+  }
 }
 
 // QUERY-AND-UPDATE METHODS
